@@ -116,32 +116,95 @@ func esc(s string) string {
 	return sb.String()
 }
 
-func el(sb *strings.Builder, name, val string) {
-	if val != "" {
+// xmlStyle chooses, deterministically from the case's style number and the position of the text,
+// one of the spellings XML allows for the same decoded value.  Style 0 is the plain spelling.
+type xmlStyle struct {
+	seed uint64
+	n    uint64
+}
+
+func (st *xmlStyle) pick(k uint64) uint64 {
+	if st == nil || st.seed == 0 {
+		return 0
+	}
+	st.n++
+	x := st.seed*0x9E3779B97F4A7C15 + st.n*0xBF58476D1CE4E5B9
+	x ^= x >> 31
+	x *= 0x94D049BB133111EB
+	x ^= x >> 29
+	return x % k
+}
+
+// text writes <name>val</name> in one of its equivalent spellings.
+func (st *xmlStyle) text(sb *strings.Builder, name, val string) {
+	if val == "" {
+		switch st.pick(4) {
+		case 1:
+			fmt.Fprintf(sb, "<%s/>", name)
+		case 2:
+			fmt.Fprintf(sb, "<%s>  \n\t </%s>", name, name)
+		case 3:
+			fmt.Fprintf(sb, "<%s><![CDATA[]]></%s>", name, name)
+		default:
+			fmt.Fprintf(sb, "<%s></%s>", name, name)
+		}
+		return
+	}
+	switch st.pick(8) {
+	case 1:
+		fmt.Fprintf(sb, "<%s>  %s\n  </%s>", name, esc(val), name)
+	case 2:
+		if !strings.Contains(val, "]]>") {
+			fmt.Fprintf(sb, "<%s><![CDATA[%s]]></%s>", name, val, name)
+			return
+		}
+		fmt.Fprintf(sb, "<%s>%s</%s>", name, esc(val), name)
+	case 3:
+		if !strings.Contains(val, "]]>") {
+			fmt.Fprintf(sb, "<%s> <![CDATA[ %s ]]>\n</%s>", name, val, name)
+			return
+		}
+		fmt.Fprintf(sb, "<%s>%s</%s>", name, esc(val), name)
+	default:
 		fmt.Fprintf(sb, "<%s>%s</%s>", name, esc(val), name)
 	}
 }
 
-func renderDeps(sb *strings.Builder, deps []maven.Dependency) {
+// el writes an optional element: nothing at all when the value is empty.
+func el(st *xmlStyle, sb *strings.Builder, name, val string) {
+	if val != "" {
+		st.text(sb, name, val)
+	}
+}
+
+// boolean texts are read case-insensitively
+func elBool(st *xmlStyle, sb *strings.Builder, name, val string) {
+	if (val == "true" || val == "false") && st.pick(4) == 1 {
+		val = strings.ToUpper(val[:1]) + val[1:]
+	}
+	el(st, sb, name, val)
+}
+
+func renderDeps(st *xmlStyle, sb *strings.Builder, deps []maven.Dependency) {
 	if len(deps) == 0 {
 		return
 	}
 	sb.WriteString("<dependencies>")
 	for _, d := range deps {
 		sb.WriteString("<dependency>")
-		el(sb, "groupId", string(d.GroupID))
-		el(sb, "artifactId", string(d.ArtifactID))
-		el(sb, "version", string(d.Version))
-		el(sb, "type", string(d.Type))
-		el(sb, "classifier", string(d.Classifier))
-		el(sb, "scope", string(d.Scope))
-		el(sb, "optional", string(d.Optional))
+		el(st, sb, "groupId", string(d.GroupID))
+		el(st, sb, "artifactId", string(d.ArtifactID))
+		el(st, sb, "version", string(d.Version))
+		el(st, sb, "type", string(d.Type))
+		el(st, sb, "classifier", string(d.Classifier))
+		el(st, sb, "scope", string(d.Scope))
+		elBool(st, sb, "optional", string(d.Optional))
 		if len(d.Exclusions) > 0 {
 			sb.WriteString("<exclusions>")
 			for _, e := range d.Exclusions {
 				sb.WriteString("<exclusion>")
-				el(sb, "groupId", string(e.GroupID))
-				el(sb, "artifactId", string(e.ArtifactID))
+				el(st, sb, "groupId", string(e.GroupID))
+				el(st, sb, "artifactId", string(e.ArtifactID))
 				sb.WriteString("</exclusion>")
 			}
 			sb.WriteString("</exclusions>")
@@ -151,62 +214,63 @@ func renderDeps(sb *strings.Builder, deps []maven.Dependency) {
 	sb.WriteString("</dependencies>")
 }
 
-func renderBase(sb *strings.Builder, props maven.Properties, deps, mgmt []maven.Dependency) {
+func renderBase(st *xmlStyle, sb *strings.Builder, props maven.Properties, deps, mgmt []maven.Dependency) {
 	if len(props.Properties) > 0 {
 		sb.WriteString("<properties>")
 		for _, p := range props.Properties {
-			fmt.Fprintf(sb, "<%s>%s</%s>", p.Name, esc(p.Value), p.Name)
+			// a property is always written, also when its value is empty
+			st.text(sb, p.Name, p.Value)
 		}
 		sb.WriteString("</properties>")
 	}
 	if len(mgmt) > 0 {
 		sb.WriteString("<dependencyManagement>")
-		renderDeps(sb, mgmt)
+		renderDeps(st, sb, mgmt)
 		sb.WriteString("</dependencyManagement>")
 	}
-	renderDeps(sb, deps)
+	renderDeps(st, sb, deps)
 }
 
-func renderPOM(p maven.Project) string {
+func renderPOM(p maven.Project, st *xmlStyle) string {
 	var sb strings.Builder
 	sb.WriteString("<project><modelVersion>4.0.0</modelVersion>")
 	if p.Parent.GroupID != "" || p.Parent.ArtifactID != "" || p.Parent.Version != "" {
 		sb.WriteString("<parent>")
-		el(&sb, "groupId", string(p.Parent.GroupID))
-		el(&sb, "artifactId", string(p.Parent.ArtifactID))
-		el(&sb, "version", string(p.Parent.Version))
+		el(st, &sb, "groupId", string(p.Parent.GroupID))
+		el(st, &sb, "artifactId", string(p.Parent.ArtifactID))
+		el(st, &sb, "version", string(p.Parent.Version))
 		sb.WriteString("</parent>")
 	}
-	el(&sb, "groupId", string(p.GroupID))
-	el(&sb, "artifactId", string(p.ArtifactID))
-	el(&sb, "version", string(p.Version))
-	el(&sb, "packaging", string(p.Packaging))
-	renderBase(&sb, p.Properties, p.Dependencies, p.DependencyManagement.Dependencies)
+	el(st, &sb, "groupId", string(p.GroupID))
+	el(st, &sb, "artifactId", string(p.ArtifactID))
+	el(st, &sb, "version", string(p.Version))
+	el(st, &sb, "packaging", string(p.Packaging))
+	renderBase(st, &sb, p.Properties, p.Dependencies, p.DependencyManagement.Dependencies)
 	if len(p.Profiles) > 0 {
 		sb.WriteString("<profiles>")
 		for _, pr := range p.Profiles {
 			sb.WriteString("<profile>")
-			el(&sb, "id", string(pr.ID))
+			el(st, &sb, "id", string(pr.ID))
 			a := pr.Activation
 			sb.WriteString("<activation>")
-			el(&sb, "activeByDefault", string(a.ActiveByDefault))
-			el(&sb, "jdk", string(a.JDK))
+			elBool(st, &sb, "activeByDefault", string(a.ActiveByDefault))
+			el(st, &sb, "jdk", string(a.JDK))
 			if a.OS != (maven.ActivationOS{}) {
 				sb.WriteString("<os>")
-				el(&sb, "name", string(a.OS.Name))
-				el(&sb, "family", string(a.OS.Family))
-				el(&sb, "arch", string(a.OS.Arch))
-				el(&sb, "version", string(a.OS.Version))
+				el(st, &sb, "name", string(a.OS.Name))
+				el(st, &sb, "family", string(a.OS.Family))
+				el(st, &sb, "arch", string(a.OS.Arch))
+				el(st, &sb, "version", string(a.OS.Version))
 				sb.WriteString("</os>")
 			}
 			if a.Property != (maven.ActivationProperty{}) {
 				sb.WriteString("<property>")
-				el(&sb, "name", string(a.Property.Name))
-				el(&sb, "value", string(a.Property.Value))
+				el(st, &sb, "name", string(a.Property.Name))
+				el(st, &sb, "value", string(a.Property.Value))
 				sb.WriteString("</property>")
 			}
 			sb.WriteString("</activation>")
-			renderBase(&sb, pr.Properties, pr.Dependencies, pr.DependencyManagement.Dependencies)
+			renderBase(st, &sb, pr.Properties, pr.Dependencies, pr.DependencyManagement.Dependencies)
 			sb.WriteString("</profile>")
 		}
 		sb.WriteString("</profiles>")
@@ -224,6 +288,22 @@ type lineage struct {
 	fetch func(maven.ProjectKey) (maven.Project, error)
 }
 
+// caseStyle is the optional fourth element of a case: how the XML text is spelled (0: plainly).
+func caseStyle(arg sx.V) uint64 {
+	if l := arg.List(); len(l) > 3 {
+		return uint64(l[3].Int())
+	}
+	return 0
+}
+
+// pomStyle gives every POM of a case its own sequence of spellings.
+func pomStyle(style uint64, i int) *xmlStyle {
+	if style == 0 {
+		return nil
+	}
+	return &xmlStyle{seed: style*1000003 + uint64(i) + 1}
+}
+
 func parseLineage(arg sx.V, viaXML bool) lineage {
 	env := arg.Nth(0).List()
 	var ln lineage
@@ -233,23 +313,24 @@ func parseLineage(arg sx.V, viaXML bool) lineage {
 	if len(poms) == 0 {
 		panic(harnessBug{"lineage without root"})
 	}
+	style := caseStyle(arg)
 	// Every access builds a fresh value, as decoding a fetched file does.
-	get := func(v sx.V) (maven.Project, error) {
+	get := func(i int, v sx.V) (maven.Project, error) {
 		p := sxProject(v)
 		if !viaXML {
 			return p, nil
 		}
 		var q maven.Project
-		if err := xml.NewDecoder(strings.NewReader(renderPOM(p))).Decode(&q); err != nil {
+		if err := xml.NewDecoder(strings.NewReader(renderPOM(p, pomStyle(style, i)))).Decode(&q); err != nil {
 			return maven.Project{}, err
 		}
 		return q, nil
 	}
-	ln.root = func() (maven.Project, error) { return get(poms[0]) }
+	ln.root = func() (maven.Project, error) { return get(0, poms[0]) }
 	ln.fetch = func(pk maven.ProjectKey) (maven.Project, error) {
 		// The key of a stored POM is what its own file declares (group and version may be
 		// inherited from its parent element, as Maven allows).
-		for _, v := range poms[1:] {
+		for i, v := range poms[1:] {
 			l := v.List()
 			g, a, ver := l[0].Str(), l[1].Str(), l[2].Str()
 			if g == "" {
@@ -259,7 +340,7 @@ func parseLineage(arg sx.V, viaXML bool) lineage {
 				ver = l[3].Nth(2).Str()
 			}
 			if g == string(pk.GroupID) && a == string(pk.ArtifactID) && ver == string(pk.Version) {
-				return get(v)
+				return get(i+1, v)
 			}
 		}
 		return maven.Project{}, errors.New("not found")
@@ -339,6 +420,31 @@ func depsOut(deps []maven.Dependency) sx.V {
 	return sx.L(out...)
 }
 
+func propsOut(ps maven.Properties) sx.V {
+	out := make([]sx.V, 0, len(ps.Properties))
+	for _, p := range ps.Properties {
+		out = append(out, sx.L(sx.B(p.Name), sx.B(p.Value)))
+	}
+	return sx.L(out...)
+}
+
+// projectOut is the inverse of sxProject.
+func projectOut(p maven.Project) sx.V {
+	profs := make([]sx.V, 0, len(p.Profiles))
+	for _, pr := range p.Profiles {
+		a := pr.Activation
+		profs = append(profs, sx.L(sx.B(string(pr.ID)),
+			sx.L(sx.B(string(a.ActiveByDefault)), sx.B(string(a.JDK)),
+				sx.L(sx.B(string(a.OS.Name)), sx.B(string(a.OS.Family)), sx.B(string(a.OS.Arch)), sx.B(string(a.OS.Version))),
+				sx.L(sx.B(string(a.Property.Name)), sx.B(string(a.Property.Value)))),
+			propsOut(pr.Properties), depsOut(pr.Dependencies), depsOut(pr.DependencyManagement.Dependencies)))
+	}
+	return sx.L(sx.B(string(p.GroupID)), sx.B(string(p.ArtifactID)), sx.B(string(p.Version)),
+		sx.L(sx.B(string(p.Parent.GroupID)), sx.B(string(p.Parent.ArtifactID)), sx.B(string(p.Parent.Version))),
+		sx.B(string(p.Packaging)), propsOut(p.Properties), depsOut(p.Dependencies), depsOut(p.DependencyManagement.Dependencies),
+		sx.L(profs...))
+}
+
 func pomHandler(viaXML bool) handler {
 	return func(arg sx.V) sx.V {
 		ln := parseLineage(arg, viaXML)
@@ -411,10 +517,22 @@ func init() {
 	register("pomxml", pomHandler(true))
 	register("pomrender", func(arg sx.V) sx.V {
 		var out []sx.V
-		for _, v := range arg.Nth(1).List() {
-			out = append(out, sx.B(renderPOM(sxProject(v))))
+		for i, v := range arg.Nth(1).List() {
+			out = append(out, sx.B(renderPOM(sxProject(v), pomStyle(caseStyle(arg), i))))
 		}
 		return sx.L(out...)
+	})
+	// what the package's decoder makes of the XML texts, in the form of the case's own POMs
+	register("pomdecode", func(arg sx.V) sx.V {
+		var out []sx.V
+		for i, v := range arg.Nth(1).List() {
+			var q maven.Project
+			if err := xml.NewDecoder(strings.NewReader(renderPOM(sxProject(v), pomStyle(caseStyle(arg), i)))).Decode(&q); err != nil {
+				return sx.L(sx.Sym("err"))
+			}
+			out = append(out, projectOut(q))
+		}
+		return sx.L(sx.Sym("ok"), sx.L(out...))
 	})
 	register("interp", interpHandler)
 	register("jdkprobe", jdkProbe)
